@@ -43,6 +43,7 @@ type backend struct {
 	out     *bufio.Reader
 	defined map[int32]bool
 	timeout time.Duration
+	stack   []int32 // ids of the literals asserted so far, one push level each
 }
 
 func newBackend(name string, timeout time.Duration) *backend {
@@ -79,6 +80,8 @@ func (b *backend) start() error {
 	if err := b.cmd.Start(); err != nil {
 		return err
 	}
+	b.stack = nil
+	io.WriteString(b.in, "(set-option :global-declarations true)\n")
 	if strings.HasPrefix(b.name, "cvc5") {
 		io.WriteString(b.in, "(set-logic ALL)\n")
 	}
@@ -144,9 +147,18 @@ func (b *backend) check(lits []*Term, vars []*Term, wantModel bool) (res string,
 			b.define(&sb, v)
 		}
 	}
-	sb.WriteString("(push 1)\n")
-	for _, l := range lits {
-		sb.WriteString("(assert " + ref(l) + ")\n")
+	// incremental: keep the common prefix with the previous query asserted
+	k := 0
+	for k < len(b.stack) && k < len(lits) && b.stack[k] == lits[k].id {
+		k++
+	}
+	if n := len(b.stack) - k; n > 0 {
+		fmt.Fprintf(&sb, "(pop %d)\n", n)
+	}
+	b.stack = b.stack[:k]
+	for _, l := range lits[k:] {
+		sb.WriteString("(push 1)\n(assert " + ref(l) + ")\n")
+		b.stack = append(b.stack, l.id)
 	}
 	sb.WriteString("(check-sat)\n")
 	if _, err := io.WriteString(b.in, sb.String()); err != nil {
@@ -196,7 +208,6 @@ func (b *backend) check(lits []*Term, vars []*Term, wantModel bool) (res string,
 			return "error", nil, err
 		}
 	}
-	io.WriteString(b.in, "(pop 1)\n")
 	return res, m, nil
 }
 
